@@ -27,8 +27,10 @@ I1(cmd, strict) == Insp("i1", <<"i", "1">>, cmd, strict)
 I2(cmd) == Insp("i2", <<"i", "2">>, cmd, FALSE)
 J1 == Insp("j1", <<"j", "1">>, Cmd("exit", 0, "none"), FALSE)
 
+\* "rule_match_insp": the failing step also has a MATCH rule that names an INSPECTION (no link for that
+\* name exists when the step rules are applied: the rule consumes nothing and the step still fails)
 Causes == {"none", "badsig", "expired", "missing", "unauth", "badlinksig", "thr", "disagree",
-           "rule", "subfail", "subok", "subok_rule"}
+           "rule", "rule_match_insp", "subfail", "subok", "subok_rule"}
 
 Sub(exp) ==
   LayoutD(<<GoodSig("k1")>>, exp, <<"k3">>,
@@ -42,7 +44,9 @@ Layout(cause, insps) ==
                   IF cause \in {"thr", "disagree"} THEN <<"k1", "k2">> ELSE <<"k1">>,
                   IF cause \in {"thr", "disagree"} THEN 2 ELSE 1,
                   << >>,
-                  IF cause \in {"rule", "subok_rule"} THEN <<Simple("DISALLOW", <<"*">>)>> ELSE <<Simple("ALLOW", <<"*">>)>>)>>,
+                  CASE cause \in {"rule", "subok_rule"} -> <<Simple("DISALLOW", <<"*">>)>>
+                    [] cause = "rule_match_insp" -> <<MatchR(<<"*">>, "P", "i1"), MatchR(PA, "M", "i1"), Simple("DISALLOW", <<"*">>)>>
+                    [] OTHER -> <<Simple("ALLOW", <<"*">>)>>)>>,
           insps)
 
 Files(cause) ==
